@@ -52,7 +52,7 @@ LEVEL = {
          "ryu is an external crate: RyuContractWide is assumed, not proved; the harness passes ryu's text for the same float and the Lean oracle re-checks every clause of the contract on "
          "every request (evidence: assumed_contract_broken). str::parse is modelled as Spec.rneDecSafe, proved to be round-to-nearest-even (Proofs.Rne). Sweeps: from_f32→to_f32 gives back "
          "identical bits on every f32 bit pattern (thorough: all 2^32 for Bitstring32/64/Bitstring; quick: a strided tenth)."),
- "C13": ("Theorems C13_sound, C13_overflow, C13_infinity, C13_nan, C13_some, C13_b32_total: a Some is the round-to-nearest-even float of the exact value with the decimal's sign, "
+ "C13": ("Theorems C13_nearest (a Some is the finite float nearest to the decimal's exact rational value, the even one on a tie, with the decimal's sign), C13_overflow_threshold, C13_sound, C13_overflow, C13_infinity, C13_nan, C13_some, C13_b32_total: a Some is the round-to-nearest-even float of the exact value with the decimal's sign, "
          "None on overflow, Some guaranteed for ≤17 significant digits at widths ≤160 bits, every Bitstring32 converts to f64; scratch-buffer arithmetic floatText_some_iff.",
          "Relative to the model of str::parse::<f32|f64> as Spec.rneDecSafe, which is itself proved to be IEEE round-to-nearest-even over exact rationals "
          "(Proofs.Rne: nearest among all finite patterns, ties to the even pattern, overflow exactly from (2^prec − 1/2)·2^(emax−prec+1), monotone; also stated over ℚ); that the real "
